@@ -87,6 +87,9 @@ fn queued_pauses(cap: Option<usize>) -> usize {
             fail("C19", format!("buffered sink behind a queuing sink wrote {:?} while the queue was idle for an hour ({} short metrics buffered, capacity 64, no flush, no drop)", early, sent));
         }
     }
+    if q.panics() != 0 {
+        fail("C11", format!("panics() = {} after hours of idling although the wrapped sink never panicked", q.panics()));
+    }
     drop(q);
     std::thread::sleep(PAUSE);
     let early = drain(&rx);
@@ -99,6 +102,9 @@ fn queued_pauses(cap: Option<usize>) -> usize {
         fail("C06", format!("after the flush through the queuing sink the datagrams are {:?}", got));
     }
     q2.emit("g.h:4|c").unwrap();
+    if q2.panics() != 0 {
+        fail("C11", format!("panics() = {} after an emit that followed hours of idling; the wrapped sink never panicked", q2.panics()));
+    }
     drop(q2);
     // the last drop releases the buffered sink, which writes what it holds: wait for the channel to disconnect
     let mut rest = Vec::new();
